@@ -150,8 +150,12 @@ impl FileSystem for OverlayFS {
     fn append_file(&self, path: &str) -> VfsResult<Box<dyn SeekAndWrite + Send>> {
         let write_path = self.write_path(path)?;
         if !write_path.exists()? {
+            let read_path = self.read_path(path)?;
+            if read_path.metadata()?.file_type != VfsFileType::File {
+                return Err(VfsErrorKind::Other("Not a file".into()).into());
+            }
             self.ensure_has_parent(path)?;
-            self.read_path(path)?.copy_file(&write_path)?;
+            read_path.copy_file(&write_path)?;
         }
         write_path.append_file()
     }
